@@ -379,7 +379,7 @@ def finish(mod, pid, tier, seed, level, cases, results, extras, worker_problems,
             ev["coverage"].update(mod.evidence_extra(results, extras))
         except Exception as e:  # noqa: BLE001
             ev["coverage"]["evidence_extra_error"] = repr(e)
-    if not replay:
+    if not replay and not os.environ.get("XV_NO_EVIDENCE"):
         os.makedirs(os.path.join(boot.VERIF, "evidence"), exist_ok=True)
         with open(os.path.join(boot.VERIF, "evidence", f"{pid}.json"), "w") as f:
             json.dump(_jsonable(ev), f, indent=1)
